@@ -47,10 +47,6 @@ out += ["", "Not kept: C05 round 7 change a (the tick of a time exactly halfway 
         "instead of round-half-up). The property asks for the type's tick and for the TDS layout; which of the two neighbouring ticks",
         "an exact tie goes to is prescribed by neither, both results are within the tick C04 allows, so the change does not break the",
         "property as stated and the checks (rightly) accept it. The agent's demonstration compares with a half-up reference of its own."]
-out += ["", "Not kept: C01 round 9 change a (QueuePackage releases the lock of the outgoing queue while full packets are written). It needs two",
-        "goroutines sending on ONE channel at the same time; C01 does not quantify over that (the order of their packages within a message",
-        "is undefined with or without the change). The interleaving next to it that is in scope - Close's logout meeting a parked send, C13 -",
-        "was tried (parked requests of several packets) and gives no report with this change, so nothing is claimed for it."]
 out += ["", "%d changes; %d were missed by the quick check as it was when they came in; %d are missed now." % (len(rows), n["first_missed"], n["now_missed"]), ""]
 open("/verif/seeded/README.md", "w").write("\n".join(out))
 print(out[-2])
